@@ -145,7 +145,7 @@ Free(S, x) == S.dev[x].inp = 0 /\ S.dev[x].out = 0
 RECURSIVE WouldTake(_, _, _, _)
 WouldTake(S, x, p, depth) ==
     IF depth > N + 2 THEN FALSE
-    ELSE CASE Kind(x) = "gate" -> Pred(S, x, p) /\ ~S.dev[x].blocked
+    ELSE CASE Kind(x) \in {"gate", "junction"} -> Pred(S, x, p) /\ ~S.dev[x].blocked
                                    /\ \E y \in Range(S.down[x]) : WouldTake(S, y, p, depth + 1)
            [] Kind(x) = "buffer" -> ~S.dev[x].blocked /\ Free(S, x)
                                      /\ (cfg.devs[x].cap = None \/ S.dev[x].level + NLeaves(S, p) <= cfg.devs[x].cap)
@@ -389,7 +389,7 @@ C08(pre, ev, post, aux) ==
            \A p \in DOMAIN post.part : ~post.part[p].batch =>
                 LET h0 == IF p \in DOMAIN pre.part THEN pre.part[p].hist ELSE <<>>
                     h1 == post.part[p].hist IN
-                \A i \in (Len(h0) + 1)..Len(h1) : Kind(h1[i]) = "gate" => Pred(post, h1[i], p))
+                \A i \in (Len(h0) + 1)..Len(h1) : Kind(h1[i]) = "gate" => Pred(pre, h1[i], p))
     \cup C("C08.BlockedInputRefuses",
            \A d \in Devs : (pre.dev[d].blocked /\ post.dev[d].blocked) =>
                 /\ Occ(ev, "recv", d) = <<>>
